@@ -4,6 +4,7 @@ import (
 	"go/constant"
 	"go/token"
 	"go/types"
+	"strings"
 
 	"golang.org/x/tools/go/ssa"
 )
@@ -28,22 +29,76 @@ func (q PathQuery) Reaches(b *ssa.BasicBlock, idx int, target func(ssa.Instructi
 	// call stack of inlined sites entered during the walk (context-sensitive returns); frames are interned so that
 	// two equal stacks are the same pointer
 	type frame struct {
-		site *ssa.Call
-		up   *frame
+		site   *ssa.Call
+		callee *ssa.Function
+		up     *frame
 	}
 	type fkey struct {
-		site *ssa.Call
-		up   *frame
+		site   *ssa.Call
+		callee *ssa.Function
+		up     *frame
 	}
 	frames := map[fkey]*frame{}
-	pushFrame := func(site *ssa.Call, up *frame) *frame {
-		k := fkey{site, up}
+	pushFrame := func(site *ssa.Call, callee *ssa.Function, up *frame) *frame {
+		k := fkey{site, callee, up}
 		if f, ok := frames[k]; ok {
 			return f
 		}
-		f := &frame{site, up}
+		f := &frame{site, callee, up}
 		frames[k] = f
 		return f
+	}
+	// callbackOf: in is a call of a function-valued parameter of the helper the walk is in (stack top); the value
+	// bound to that parameter at the helper's call site, when it is a closure / function of the repository
+	callbackOf := func(in ssa.Instruction, st *frame) *ssa.Function {
+		c, ok := in.(*ssa.Call)
+		if !ok || c.Call.IsInvoke() || c.Call.StaticCallee() != nil {
+			return nil
+		}
+		p, ok := c.Call.Value.(*ssa.Parameter)
+		if !ok {
+			return nil
+		}
+		var site *ssa.Call
+		switch {
+		case st != nil && st.callee == p.Parent():
+			site = st.site
+		case st == nil:
+			// the walk started inside the helper: usable when the helper has one call site in the host in question
+			host := q.Root
+			if host == nil {
+				host = hostCtx
+			}
+			for _, s := range InlineSites(p.Parent()) {
+				if host != nil && !InBody(host, s.Parent()) {
+					continue
+				}
+				if site != nil {
+					return nil
+				}
+				site = s
+			}
+		}
+		if site == nil {
+			return nil
+		}
+		callee := p.Parent()
+		for i, q := range callee.Params {
+			if q != p || i >= len(site.Call.Args) {
+				continue
+			}
+			var t *ssa.Function
+			switch x := site.Call.Args[i].(type) {
+			case *ssa.MakeClosure:
+				t, _ = x.Fn.(*ssa.Function)
+			case *ssa.Function:
+				t = x
+			}
+			if t != nil && t.Blocks != nil && pkgOf(t) != nil && strings.HasPrefix(pkgOf(t).Pkg.Path(), Module) {
+				return t
+			}
+		}
+		return nil
 	}
 	depth := func(f *frame) int {
 		n := 0
@@ -67,7 +122,25 @@ func (q PathQuery) Reaches(b *ssa.BasicBlock, idx int, target func(ssa.Instructi
 		up   *fact
 	}
 	factsTab := map[factKey]*fact{}
-	addFact := func(site *ssa.Call, idx int, kind resultFact, up *fact) *fact {
+	var addFact func(site *ssa.Call, idx int, kind resultFact, up *fact) *fact
+	addFact = func(site *ssa.Call, idx int, kind resultFact, up *fact) *fact {
+		// bounded memory: a result is tested right after the call that produced it; only the facts of the last few
+		// returns are kept (otherwise the number of distinct fact lists - and walk states - explodes)
+		n := 0
+		for f := up; f != nil; f = f.up {
+			n++
+		}
+		if n >= 4 {
+			// rebuild without the oldest entry
+			var keep []*fact
+			for f := up; f != nil && len(keep) < 3; f = f.up {
+				keep = append(keep, f)
+			}
+			up = nil
+			for i := len(keep) - 1; i >= 0; i-- {
+				up = addFact(keep[i].site, keep[i].idx, keep[i].kind, up)
+			}
+		}
 		k := factKey{site, idx, kind, up}
 		if f, ok := factsTab[k]; ok {
 			return f
@@ -154,6 +227,11 @@ func (q PathQuery) Reaches(b *ssa.BasicBlock, idx int, target func(ssa.Instructi
 		work = append(work, &item{nb, ni, st, fc, prev})
 	}
 	for len(work) > 0 {
+		if len(seen) > pathBudget {
+			// never hang: give up on this query, answer "a path may exist" and let the report say so
+			BudgetHits++
+			return true, nil
+		}
 		it := work[0]
 		work = work[1:]
 		stopped := false
@@ -173,12 +251,18 @@ func (q PathQuery) Reaches(b *ssa.BasicBlock, idx int, target func(ssa.Instructi
 			if h := InlinedCallee(in); h != nil && depth(it.stack) < 6 {
 				// the instructions after the call are reached from the callee's returns
 				site := in.(*ssa.Call)
-				push(h.Blocks[0], 0, pushFrame(site, it.stack), dropFacts(it.facts, site), it)
+				push(h.Blocks[0], 0, pushFrame(site, h, it.stack), dropFacts(it.facts, site), it)
 				stopped = true
 				break
 			}
-			if ret, ok := in.(*ssa.Return); ok && IsInlined(ret.Parent()) {
-				if it.stack != nil && InlinedCallee(it.stack.site) == ret.Parent() {
+			if cb := callbackOf(in, it.stack); cb != nil && depth(it.stack) < 6 {
+				// the callback a generic helper applies: walk through its body, then go on after the call
+				push(cb.Blocks[0], 0, pushFrame(in.(*ssa.Call), cb, it.stack), it.facts, it)
+				stopped = true
+				break
+			}
+			if ret, ok := in.(*ssa.Return); ok && (IsInlined(ret.Parent()) || (it.stack != nil && it.stack.callee == ret.Parent())) {
+				if it.stack != nil && it.stack.callee == ret.Parent() {
 					s := it.stack.site
 					fc := it.facts
 					for ri, k := range returnFacts(ret) {
@@ -227,6 +311,11 @@ func (q PathQuery) Reaches(b *ssa.BasicBlock, idx int, target func(ssa.Instructi
 	}
 	return false, nil
 }
+
+// pathBudget bounds the number of walk states of one PathQuery; BudgetHits counts the queries that were cut off.
+const pathBudget = 300000
+
+var BudgetHits int
 
 // resultFact is what a return instruction of an inlined callee tells about one of its results.
 type resultFact int
